@@ -18,7 +18,7 @@ type roundInfo struct {
 	name      string // "protocols/cmp/keygen.round4"
 	broadcast bool   // declares StoreBroadcastMessage itself
 	methods   map[string]*ssa.Function
-	number    int64 // constant returned by Number(), -1 unknown
+	number    int64        // constant returned by Number(), -1 unknown
 	p2p       *types.Named // content type consumed via MessageContent (nil: none)
 	bcast     *types.Named // content type consumed via BroadcastContent
 }
